@@ -110,6 +110,13 @@ func tar(ctx context.Context, enc FormatEncoder, fs *fsBufReader, f *File) (n in
 				break
 			}
 
+			// Skip (and warn about) things we can't encode properly before anything
+			// is written for them. A filename element has to be followed by an entry.
+			if !(f.IsDir() || f.IsRegular() || f.IsSymlink() || f.IsDevice()) {
+				fmt.Fprintf(os.Stderr, "skipping '%s' : unsupported node type\n", f.Name)
+				continue
+			}
+
 			start := n
 			// CaFormatFilename - Write the filename element, then recursively encode
 			// the items in the directory
